@@ -177,12 +177,12 @@ def verdict(kind: str, route: str, edit: str, name: str, nexports: int, e1: str)
 # ================================================================================ robustness + exit code
 @obligation(
     pid="C11", name="skips_and_exit_code", timeout=tiered(200, 600),
-    shards=lambda: [(f"broken={b}", None, [dict(broken=b)]) for b in ("none", "unresolvable", "cyclic")],
+    shards=lambda: [(f"broken={b}", None, [dict(broken=b)]) for b in ("none", "unresolvable", "cyclic", "new-unresolvable", "new-cyclic", "old-unresolvable")],
     pre=lambda broken, remove_keep, name: len(name) == 1 and name in "ab",
     drives=[D._alias_incompatibilities, find_breaking_changes, __import__("_griffe.cli", fromlist=["check"]).check],
-    bounds={"package": "pkg{keep(), alias `name` -> missing target / cyclic alias pair / nothing}", "edit": "remove keep() or not"}, value_symbolic=["remove_keep", "alias name"], selectors=["kind of broken re-export"],
-    stubs=STUBS + ["cli.check: load_git/load/get_repo_root/get_latest_tag return the two in-memory versions (no git, no disk)"], must_cover=["exit-1", "exit-0"],
-    grid=lambda seed: [dict(broken=b, remove_keep=r, name="a") for b in ("none", "unresolvable", "cyclic") for r in (False, True)],
+    bounds={"package": "pkg{keep(), alias `name` -> missing target / cyclic alias pair / nothing; asymmetric histories: a real function `name` on one side, an un-followable re-export of the same name on the other}", "edit": "remove keep() or not"}, value_symbolic=["remove_keep", "alias name"], selectors=["kind of broken re-export"],
+    stubs=STUBS + ["cli.check: load_git/load/get_repo_root/get_latest_tag return the two in-memory versions (no git, no disk)"], must_cover=["exit-1", "exit-0", "asymmetric-history"],
+    grid=lambda seed: [dict(broken=b, remove_keep=r, name="a") for b in ("none", "unresolvable", "cyclic", "new-unresolvable", "new-cyclic", "old-unresolvable") for r in (False, True)],
 )
 def skips_and_exit_code(broken: str, remove_keep: bool, name: str) -> bool:
     """Unresolvable/cyclic re-exports are skipped without aborting the comparison; `griffe check` exits non-zero exactly when something is reported."""
@@ -195,17 +195,32 @@ def skips_and_exit_code(broken: str, remove_keep: bool, name: str) -> bool:
         if old or not remove_keep:
             pkg.set_member("keep", Function("keep", parameters=Parameters(), lineno=1, endlineno=1))
         pkg.exports = ["keep", name, "z"]
-        if broken == "unresolvable":
+        # asymmetric histories: the name is a real function on one side and an un-followable re-export on the other
+        how = broken
+        if broken.startswith("new-"):
+            how = broken[4:] if not old else "function"
+        elif broken.startswith("old-"):
+            how = broken[4:] if old else "function"
+        if how == "function":
+            pkg.set_member(name, Function(name, parameters=Parameters(), lineno=2, endlineno=2))
+        elif how == "unresolvable":
             pkg.set_member(name, Alias(name, "missing.thing", lineno=2, endlineno=2))
-        elif broken == "cyclic":
+        elif how == "cyclic":
             pkg.set_member(name, Alias(name, "pkg.z", lineno=2, endlineno=2))
             pkg.set_member("z", Alias("z", f"pkg.{name}", lineno=3, endlineno=3))
         return pkg
 
     old, new = mk(True), mk(False)
-    breaks = list(find_breaking_changes(old, new))
+    breaks = list(find_breaking_changes(old, new))  # an exception here = the comparison was aborted
     want = ["pkg.keep"] if remove_keep else []
-    if [b.obj.path for b in breaks] != want:
+    got_paths = [b.obj.path for b in breaks]
+    if "-" in broken:
+        # what is reported for the name itself is not prescribed; the rest of the comparison must go on
+        if [p for p in got_paths if p not in (f"pkg.{name}", "pkg.z")] != want:
+            return fail(f"{broken}: breakages {[(b.kind.name, b.obj.path) for b in breaks]}; the removal of keep must {'be' if remove_keep else 'not be'} reported and nothing else besides pkg.{name}")
+        cover("asymmetric-history")
+        return True
+    if got_paths != want:
         return fail(f"breakages {[(b.kind.name, b.obj.path) for b in breaks]} expected at {want}")
     saved = (CLI.load_git, CLI.load, CLI.get_repo_root, CLI.get_latest_tag)
     CLI.load_git = lambda *a, **k: mk(True)
@@ -218,3 +233,87 @@ def skips_and_exit_code(broken: str, remove_keep: bool, name: str) -> bool:
         CLI.load_git, CLI.load, CLI.get_repo_root, CLI.get_latest_tag = saved
     cover("exit-1" if rc else "exit-0")
     return (rc != 0) == bool(want) or fail(f"check() returned {rc} with {len(want)} breakages")
+
+
+# ================================================================================ `griffe check` end to end on a real repository
+LAYOUTS_R = ["flat", "src"]
+EDITS_R = ["none", "compatible", "breaking"]
+
+
+def _check_case(layout, edit, absolute):
+    """A real git repository in a scratch directory (outside /repo and /verif): package tagged v1, working tree edited, the real
+    cli.check() (real load_git, real load) run from the repository root with `-s <search path>` as users give it."""
+    import contextlib
+    import io
+    import os
+    import shutil
+    import subprocess
+    import tempfile
+
+    import _griffe.cli as CLI
+
+    d = tempfile.mkdtemp(prefix="verif_c11_")
+    env = dict(os.environ, GIT_AUTHOR_NAME="t", GIT_AUTHOR_EMAIL="t@t", GIT_COMMITTER_NAME="t", GIT_COMMITTER_EMAIL="t@t", HOME=d)
+
+    def git(*a):
+        return subprocess.run(["git", "-C", d, *a], capture_output=True, text=True, env=env)
+
+    try:
+        git("init", "-q", "-b", "main")
+        base = os.path.join(d, "src") if layout == "src" else d
+        os.makedirs(os.path.join(base, "pkgr"))
+        mod = os.path.join(base, "pkgr", "__init__.py")
+        open(mod, "w").write("LIMIT = 10\n\n\ndef keep(a):\n    return a\n\n\ndef gone():\n    return 0\n")
+        git("add", "-A")
+        git("commit", "-q", "-m", "one")
+        git("tag", "v1")
+        if edit == "compatible":
+            open(mod, "w").write("LIMIT = 10\n\n\ndef keep(a, *, extra=None):\n    return a\n\n\ndef gone():\n    return 0\n\n\ndef added():\n    return 1\n")
+        elif edit == "breaking":
+            open(mod, "w").write("LIMIT = 20\n\n\ndef keep(a):\n    return a\n")
+        sp = ("src" if layout == "src" else ".")
+        if absolute:
+            sp = os.path.join(d, sp) if sp != "." else d
+        cwd = os.getcwd()
+        os.chdir(d)
+        out = io.StringIO()
+        try:
+            with contextlib.redirect_stdout(out), contextlib.redirect_stderr(out):
+                rc = CLI.check("pkgr", against="v1", search_paths=[sp])
+        finally:
+            os.chdir(cwd)
+        want_nonzero = edit == "breaking"
+        if (rc != 0) != want_nonzero:
+            return f"layout={layout} search path {sp!r} edit={edit}: check() returned {rc}; the working tree {'removes gone() and changes LIMIT' if want_nonzero else 'is compatible with v1'}; output: {out.getvalue()[-300:]!r}"
+        left = git("worktree", "list").stdout.strip().splitlines()
+        if len(left) != 1 or "griffe-" in git("branch", "--list").stdout:
+            return f"check left worktrees/branches behind: {left} {git('branch', '--list').stdout!r}"
+        return None
+    finally:
+        shutil.rmtree(d, ignore_errors=True)
+
+
+@obligation(
+    pid="C11", name="check_real_repository", timeout=tiered(200, 600), path_timeout=120.0,
+    shards=lambda: [(f"layout={lay}", None, [dict(layout=lay)]) for lay in LAYOUTS_R],
+    pre=lambda layout, edit, absolute: 0 <= edit <= 2 and not absolute,  # load_git documents search paths as relative to the repository root: absolute ones are outside the claim
+    drives=[__import__("_griffe.cli", fromlist=["check"]).check, __import__("_griffe.loader", fromlist=["load_git"]).load_git],
+    bounds={"repository": "package pkgr{LIMIT, keep(a), gone()} tagged v1, flat or src layout", "working-tree edit": EDITS_R, "search path": "relative to the repository root (as in `griffe check pkgr -a v1 -s src`), which is what load_git documents"},
+    value_symbolic=["edit", "absolute"], selectors=["layout (driver-bound)"],
+    stubs=["none: real git, real files in a scratch directory, the real cli.check -> load_git -> load; the solver's choices are realised before the run"],
+    assumptions=["case analysis: nothing symbolic survives the git / file-system boundary"],
+    must_cover=["exit-nonzero-on-breaking", "exit-zero-on-compatible"],
+    grid=lambda seed: [dict(layout=lay, edit=e, absolute=False) for lay in LAYOUTS_R for e in (0, 2)],
+)
+def check_real_repository(layout: str, edit: int, absolute: bool) -> bool:
+    """`griffe check` compares the tagged version with the working tree and exits non-zero exactly when something breaking is reported."""
+    from vlib.stubs import realize_value
+
+    edit, absolute = realize_value(edit), realize_value(absolute)
+    from harness.C08_json import _native
+
+    err = _native(_check_case, layout, EDITS_R[edit], absolute)
+    if err:
+        return fail(err)
+    cover("exit-nonzero-on-breaking" if edit == 2 else "exit-zero-on-compatible")
+    return True
